@@ -16,7 +16,7 @@ from .. import scenes as sc
 PROPERTY = "C14"
 TECHNIQUE = ("explicit enumeration of all update_pose/query histories up to depth 3 on the real colliders, compared "
              "observation by observation with a freshly constructed collider (differential oracle) and the reference model")
-RULE = ("state = (type,size,margin) x history of <=3 update_pose calls (6 poses x {fresh array, item of a pose stack}) x query "
+RULE = ("state = (type,size,margin) x history of <=3 update_pose calls (6 poses x {fresh array, item of a pose stack, caller-owned buffer overwritten in place}) x query "
         "schedule {after each step, only at the end}; transition = one update_pose or one battery of 14 support queries, aabb, "
         "center, first_vertex, collider2origin, gjk distance + intersection against 2 partners; non-trivial = history with "
         ">= 2 updates to different poses; distinct = distinct (object, history, schedule)")
@@ -29,6 +29,7 @@ POSES = [(0, 0), (5, 3), (24, 3), (26, 1), (28, 2), (13, 0)]
 TYPES = [t for t in sc.TYPES if t != "hull"]
 SIZES_USED = {t: [0, 3] for t in TYPES}
 SIZES_USED["mesh"] = [0, 6]
+NMODES = 3   # fresh array, item of a pose stack, one caller-owned buffer overwritten in place and passed again
 QDIRS = [0, 1, 2, 3, 4, 5, 6, 9, 14, 20, 26, 27, 28, 29]
 
 
@@ -53,9 +54,9 @@ def enumerate_states(tier, seed):
     for t in TYPES:
         for s in SIZES_USED[t]:
             for m in (0, 1):
-                for first in range(len(POSES) * 2):
+                for first in range(len(POSES) * NMODES):
                     states.append({"t": t, "s": s, "m": m, "first": first, "depth": depth if tier == "thorough" or m == 0 else 2})
-    meta = {"bound_completed": "all update histories of length <= 3 (Margin: <= %d) over 12 update actions, both query schedules" %
+    meta = {"bound_completed": "all update histories of length <= 3 (Margin: <= %d) over 18 update actions, both query schedules" %
                                (3 if tier == "thorough" else 2), "exhaustive": True}
     return states, meta
 
@@ -106,7 +107,7 @@ def run_state(desc):
     t, s, m = desc["t"], desc["s"], desc["m"]
     depth = desc["depth"]
     stack = _pose_arrays()
-    nact = len(POSES) * 2
+    nact = len(POSES) * NMODES
     mv = sc.margin_value(t, s, m)
     is_mesh = t == "mesh"
     partners = _partners()
@@ -122,10 +123,18 @@ def run_state(desc):
             fresh_cache[pi] = battery(c, is_mesh, partners)
         return fresh_cache[pi]
 
+    buf = [None]
+
     def arr(action):
         pi, mode = action % len(POSES), action // len(POSES)
         if mode == 0:
             return pi, np.array(stack[pi], dtype=float, order="C")
+        if mode == 2:
+            if buf[0] is None:
+                buf[0] = np.array(stack[pi], dtype=float, order="C")
+            else:
+                buf[0][:, :] = stack[pi]
+            return pi, buf[0]
         return pi, stack[pi]
 
     seqs = []
@@ -136,6 +145,7 @@ def run_state(desc):
     for seq in seqs:
         for schedule in ("each", "end"):
             col, _ = sc.build(t, s, 3, sc.OFFSETS[3], mv, want_ref=False)
+            buf[0] = None
             ok = True
             for step, action in enumerate(seq):
                 pi, P = arr(action)
@@ -154,7 +164,7 @@ def run_state(desc):
                     try:
                         got = battery(col, is_mesh, partners)
                     except Exception as e:  # noqa
-                        mode = "stack_item" if action // len(POSES) else "fresh_array"
+                        mode = ("fresh_array", "stack_item", "inplace_buffer")[action // len(POSES)]
                         v = _viol("query_exception:" + type(e).__name__, cls + ":" + mode,
                                   {"history": list(seq), "step": step, "schedule": schedule, "exc": repr(e)[:200]})
                         if v["sig"] not in sigs:
